@@ -73,7 +73,7 @@ const std::vector<std::string> &mathElements()
 
 std::string applyEdit(std::string doc, Src &src, Case &c)
 {
-    switch (src.below(22)) {
+    switch (src.below(29)) { // kinds 0-21 keep their numbers; new kinds are appended (the default branch is kind 19)
     case 0: { // hostile number in a numeric attribute
         static const std::vector<std::string> attrs = {"exponent", "multiplier", "prefix", "order", "initial_value"};
         std::string a = src.pick(attrs);
@@ -459,6 +459,244 @@ std::string applyEdit(std::string doc, Src &src, Case &c)
         }
         break;
     }
+    case 22: { // a reference to an internal (or unloaded external) entity in element content: libxml2 keeps an entity-reference node
+        static const std::vector<std::string> dtds = {
+            "<!ENTITY a \"some entity replacement text that is long enough\">",
+            "<!ENTITY a \"x\">",
+            "<!ENTITY a \"1\">",
+            "<!ENTITY a \"<ci>x</ci>\">",
+            "<!ENTITY b \"y\"><!ENTITY a \"&b;&b;\">",
+            "<!ENTITY a SYSTEM \"file:///nonexistent-vp-dir/e.txt\">",
+            "<!ENTITY a \"<variable name='q' units='second'/>\">",
+            "<!ENTITY a \"\">",
+        };
+        static const std::vector<std::string> anchors = {">", "<ci>", "<cn ", "<math ", "<apply>", "<component ", "<model ", "<units ", "<variable ", "<reset ", "<test_value>", "<connection ", "<encapsulation>", "<component_ref ", "<import ", "<bvar>"};
+        size_t m = doc.find("<model");
+        std::string anchor = src.pick(anchors);
+        auto occ = findAll(doc, anchor);
+        if (m != std::string::npos && !occ.empty()) {
+            size_t p = src.pick(occ);
+            size_t q = anchor == ">" ? p : doc.find('>', p);
+            if (q != std::string::npos && q > m) {
+                if (doc[q - 1] == '/' && anchor != ">") { // an empty-element tag: open it up
+                    std::string name = doc.substr(p + 1, doc.find_first_of(" />", p + 1) - p - 1);
+                    doc.replace(q - 1, 2, ">&a;</" + name + ">");
+                } else {
+                    doc.insert(q + 1, src.flip(20) ? "&a;&a;" : "&a;");
+                }
+                doc.insert(m, "<!DOCTYPE model [" + src.pick(dtds) + "]>");
+                c.cls("edit:entity-reference-in-content");
+            }
+        }
+        break;
+    }
+    case 23: { // an apply with exactly one child / without its operator (the document may stay valid: the validator accepts both)
+        if (src.flip(60)) {
+            auto occ = findAll(doc, "<ci>");
+            if (!occ.empty()) {
+                size_t p = src.pick(occ);
+                size_t e = doc.find("</ci>", p);
+                if (e != std::string::npos) {
+                    std::string el = doc.substr(p, e + 5 - p);
+                    static const std::vector<std::string> only = {"", "<cn cellml:units=\"dimensionless\">1</cn>", "<pi/>", "<infinity/>", "<true/>", "<piecewise/>", "<apply/>", "<!-- c -->"};
+                    std::string inner = src.pick(only);
+                    if (inner.empty()) {
+                        inner = el;
+                    } else if (inner == "<apply/>") {
+                        inner = "<apply>" + el + "</apply>";
+                    } else if (inner == "<!-- c -->") {
+                        inner += el;
+                    }
+                    doc.replace(p, e + 5 - p, "<apply>" + inner + "</apply>");
+                    c.cls("edit:math-apply-one-child");
+                }
+            }
+        } else {
+            // delete the operator: the first operand takes its place
+            std::vector<size_t> occ;
+            for (size_t p : findAll(doc, "<apply><")) {
+                size_t e = doc.find('>', p + 8);
+                if (e != std::string::npos && doc[e - 1] == '/' && doc.compare(p + 8, 2, "eq") != 0) {
+                    occ.push_back(p);
+                }
+            }
+            if (!occ.empty()) {
+                size_t p = src.pick(occ);
+                size_t e = doc.find('>', p + 8);
+                doc.erase(p + 7, e + 1 - p - 7);
+                c.cls("edit:math-apply-without-operator");
+            }
+        }
+        break;
+    }
+    case 24: { // piecewise without children, piece / otherwise with the wrong number of children
+        auto occ = findAll(doc, "<ci>");
+        if (!occ.empty()) {
+            size_t p = src.pick(occ);
+            size_t e = doc.find("</ci>", p);
+            if (e != std::string::npos) {
+                const std::string x = doc.substr(p, e + 5 - p);
+                const std::vector<std::string> shapes = {"<piecewise/>", "<piecewise></piecewise>", "<piecewise><!-- c --></piecewise>", "<piecewise> </piecewise>", "<piecewise><piece/></piecewise>", "<piecewise><piece>" + x + "</piece></piecewise>",
+                                                         "<piecewise><otherwise/></piecewise>", "<piecewise><otherwise>" + x + x + "</otherwise></piecewise>", "<piecewise><piece>" + x + x + x + "</piece></piecewise>", "<piecewise><otherwise>" + x + "</otherwise></piecewise>",
+                                                         "<piecewise><piece>" + x + "<piecewise/></piece></piecewise>", "<apply><plus/>" + x + "<piecewise/></apply>", "<piecewise><piece><piecewise/><apply><gt/>" + x + x + "</apply></piece><otherwise><piecewise/></otherwise></piecewise>"};
+                doc.replace(p, e + 5 - p, src.pick(shapes));
+                c.cls("edit:math-piecewise-child-count");
+            }
+        }
+        break;
+    }
+    case 25: { // a derivative (with a degree) of something that is not a variable
+        auto occ = findAll(doc, "<ci>");
+        if (!occ.empty()) {
+            size_t p = src.pick(occ);
+            size_t e = doc.find("</ci>", p);
+            if (e != std::string::npos) {
+                const std::string x = doc.substr(p, e + 5 - p);
+                static const std::vector<std::string> degrees = {"2", "1", "0", "1.5", "-1", "3", "2", ""}; // "": a variable as degree
+                const std::vector<std::string> operands = {"<cn cellml:units=\"dimensionless\">1</cn>", "<pi/>", "<infinity/>", "<apply><plus/>" + x + x + "</apply>", "<piecewise><otherwise>" + x + "</otherwise></piecewise>", "<true/>", "<apply><diff/><bvar>" + x + "</bvar>" + x + "</apply>", x};
+                std::string bvar = x;
+                // the variable of some other derivative of the document, when there is one (every second time)
+                auto bv = findAll(doc, "<bvar><ci>");
+                size_t bsel = src.below(2 * bv.size() + 1);
+                if (bsel > bv.size()) {
+                    size_t b = bv[bsel - bv.size() - 1] + 6;
+                    size_t be = doc.find("</ci>", b);
+                    if (be != std::string::npos) {
+                        bvar = doc.substr(b, be + 5 - b);
+                    }
+                }
+                std::string d = src.pick(degrees);
+                std::string degree = d.empty() ? "<degree>" + x + "</degree>" : "<degree><cn cellml:units=\"dimensionless\">" + d + "</cn></degree>";
+                doc.replace(p, e + 5 - p, "<apply><diff/><bvar>" + bvar + degree + "</bvar>" + src.pick(operands) + "</apply>");
+                c.cls("edit:math-diff-degree-of-non-variable");
+            }
+        }
+        break;
+    }
+    case 26: { // a math element whose only (or additional) child is a token, a constant or a bare expression
+        auto occ = findAll(doc, "<math ");
+        if (!occ.empty()) {
+            size_t p = src.pick(occ);
+            size_t q = doc.find('>', p);
+            size_t e = doc.find("</math>", p);
+            if (q != std::string::npos && e != std::string::npos && doc[q - 1] != '/') {
+                std::string x = "<ci>x</ci>";
+                size_t ci = doc.find("<ci>", q);
+                if (ci != std::string::npos && ci < e) {
+                    size_t ce = doc.find("</ci>", ci);
+                    if (ce != std::string::npos && ce < e) {
+                        x = doc.substr(ci, ce + 5 - ci);
+                    }
+                }
+                const std::vector<std::string> roots = {x, "<cn cellml:units=\"dimensionless\">1</cn>", "<pi/>", "<piecewise/>", "<apply><plus/>" + x + x + "</apply>", "<true/>", "<apply>" + x + "</apply>", "<piecewise><otherwise>" + x + "</otherwise></piecewise>", "<notanumber/>", "<apply/>"};
+                std::string root = src.pick(roots);
+                if (src.flip(50)) {
+                    doc.replace(q + 1, e - q - 1, root);
+                    c.cls("edit:math-root-not-an-equation");
+                } else {
+                    doc.insert(src.flip(50) ? q + 1 : e, root);
+                    c.cls("edit:math-extra-root-not-an-equation");
+                }
+            }
+        }
+        break;
+    }
+    case 27: { // text that looks like an XML declaration inside a comment / CDATA section of math, followed by a long single line
+        static const std::vector<size_t> lengths = {3000, 20000, 40000, 60000};
+        static const std::vector<std::string> anchors = {"<math ", "<apply>", "<ci>", "</ci>", "<cn ", "</apply>", "<test_value>", "<component "};
+        auto occ = findAll(doc, src.pick(anchors));
+        if (!occ.empty()) {
+            size_t q = doc.find('>', src.pick(occ));
+            if (q != std::string::npos) {
+                size_t n = src.pick(lengths);
+                if (doc.size() + n > 65000) {
+                    n = doc.size() < 64000 ? 65000 - doc.size() : 0;
+                }
+                static const std::vector<std::pair<std::string, std::string>> variants = {{"<?xml version=", "a"}, {"<?xml  version=\"1.0\"", " "}, {"<?xml\tversion=", "?"}, {"<?xml\nversion=", "a?>"}, {"<?xml version=", "\t"}, {"<?xml version=\"1.0\" encoding=\"UTF-8\"", "b"}};
+                const auto &variant = src.pick(variants);
+                std::string line = variant.first;
+                while (line.size() < n) {
+                    line += variant.second;
+                }
+                unsigned wrap = static_cast<unsigned>(src.below(4)); // bit 0: CDATA instead of a comment, bit 1: the line ends with ?>
+                if ((wrap & 2) != 0) {
+                    line += "?>";
+                }
+                doc.insert(q + 1, (wrap & 1) != 0 ? "<![CDATA[" + line + "]]>" : "<!--" + line + "-->");
+                c.cls("edit:xml-declaration-text-long-line");
+            }
+        }
+        break;
+    }
+    case 28: { // an n-ary operator with very many operands, in a model that stays valid: the analyser rewrites n operands into a chain
+               // of depth n that every later pass (analysis, units, code generation) walks recursively. Nesting k such applications as
+               // last operand of each other adds the depths up while the (quadratic) cost of each stays small.
+        static const std::vector<std::string> ops = {"plus", "times", "and", "or", "plus", "min", "max", "xor"};
+        static const std::vector<std::pair<size_t, size_t>> shapes = {{1, 500}, {60, 100}, {8, 800}, {130, 50}, {30, 220}, {1, 1600}, {24, 400}, {3, 1000}}; // cost k*m*m <= 5e6 (validating one application is quadratic)
+        const size_t opSel = src.below(ops.size() * 3);
+        std::string op = ops[opSel % ops.size()];
+        unsigned operandKind = static_cast<unsigned>(opSel / ops.size()); // the variable itself, pi, a number
+        const auto &shape = src.pick(shapes);
+        size_t k = shape.first, m = shape.second;
+        bool standalone = src.flip(50);
+        std::string x = "<ci>a</ci>";
+        size_t p = std::string::npos, e = std::string::npos;
+        if (!standalone) {
+            // the last operand of some equation (a ci directly before </apply></apply></math> is an operand of the right-hand side)
+            auto occ = findAll(doc, "</ci></apply>");
+            if (occ.empty()) {
+                standalone = true;
+            } else {
+                e = src.pick(occ) + 5;
+                p = doc.rfind("<ci>", e);
+                if (p == std::string::npos) {
+                    standalone = true;
+                } else {
+                    x = doc.substr(p, e - p);
+                }
+            }
+        }
+        // fifteen in sixteen stay at a depth that an 8 MiB stack survives (the chain of more than about 5 500 nodes that exhausts it is a
+        // known, unrepaired finding: every hit costs a worker restart and a serial triage - three replays, three gdb runs - in bin/check)
+        const bool deep = src.below(16) == 15;
+        if (deep) {
+            operandKind = 1; // the shortest operand: the depth the 64 KiB allow
+        }
+        const std::string operand = operandKind == 0 ? x : (operandKind == 1 ? std::string("<pi/>") : std::string("<cn cellml:units=\"dimensionless\">1</cn>"));
+        const size_t budget = 64500 - std::min<size_t>(64500, standalone ? 500 : doc.size());
+        const size_t perLevel = op.size() + 18; // <apply><op/> ... </apply>
+        while (k > 1 && (k * (m * operand.size() + perLevel) > budget || (!deep && k * (m - 1) > 3000))) {
+            k = k * 3 / 4;
+        }
+        if (k * (m * operand.size() + perLevel) > budget) {
+            m = budget > perLevel ? (budget - perLevel) / operand.size() : 0;
+        }
+        if (!deep && k * (m - 1) > 3000) {
+            m = 3000 / k + 1;
+        }
+        if (m >= 2) {
+            std::string level, expr;
+            for (size_t i = 0; i + 1 < m; ++i) {
+                level += operand;
+            }
+            for (size_t i = 0; i < k; ++i) {
+                expr += "<apply><" + op + "/>" + level;
+            }
+            expr += operand;
+            for (size_t i = 0; i < k; ++i) {
+                expr += "</apply>";
+            }
+            if (standalone) {
+                doc = "<?xml version=\"1.0\" encoding=\"UTF-8\"?>\n<model xmlns=\"http://www.cellml.org/cellml/2.0#\" name=\"m\"><component name=\"c\"><variable name=\"a\" units=\"dimensionless\" initial_value=\"1\"/><variable name=\"x\" units=\"dimensionless\"/>"
+                      "<math xmlns=\"http://www.w3.org/1998/Math/MathML\" xmlns:cellml=\"http://www.cellml.org/cellml/2.0#\"><apply><eq/><ci>x</ci>" + expr + "</apply></math></component></model>";
+            } else {
+                doc.replace(p, e - p, expr);
+            }
+            c.cls(standalone ? "edit:nary-chain-standalone" : "edit:nary-chain-in-document");
+            c.cls("nary-depth>=" + std::string(k * (m - 1) >= 5000 ? "5000" : (k * (m - 1) >= 1000 ? "1000" : "0")));
+        }
+        break;
+    }
     default: { // connect variables of unrelated components / duplicate connection in reverse
         auto occ = findAll(doc, "<connection ");
         if (!occ.empty()) {
@@ -615,7 +853,9 @@ Property property = {
     "exploration",
     "structure-aware generation: a valid-by-construction model (CellML 2.0, or rewritten to 1.1/1.0 syntax) is serialised by the harness's own writer and 0-4 hostile edits are applied "
     "(numeric text, hostile names and marker strings, unit-reference cycles, import retargeting, MathML operator swaps / dropped / duplicated operands / misplaced qualifiers, namespace edits, truncation, deep nesting, "
-    "thousands of siblings, DTD entities / CDATA / PI, deleted attributes, duplicated or deleted elements); the whole pipeline runs on the result x {strict, permissive} x importer-library configuration. "
+    "thousands of siblings, DTD entities / CDATA / PI, deleted attributes, duplicated or deleted elements, e-notation numbers, long runs of one character, entity references in element content, "
+    "applies with one child or without operator, piecewise / piece / otherwise with wrong child counts, derivatives with a degree of non-variables, bare tokens below math, declaration-like text on a long line in comments / CDATA, "
+    "n-ary operators with up to ~12 900 chained operands in a valid model); the whole pipeline runs on the result x {strict, permissive} x importer-library configuration. "
     "Oracle: the process survives and side conditions hold (null model => issue, no code for invalid models, coherent issue lists). Non-trivial: parsed model with >= 1 component or units. Distinct = hash of the document.",
     run,
     nullptr,
